@@ -39,6 +39,7 @@ type Prog struct {
 	DepVers map[string]string
 	fnIndex map[string]*ssa.Function
 	callers map[*ssa.Function]map[*ssa.Function]bool
+	globalInit map[string]cell
 }
 
 type LoadOpts struct {
